@@ -182,8 +182,8 @@ theorem hasTy_operandOk (env : Env) (M : Mesh) (n : List Nat) (e : Expr) (t : Ty
   | un u e => trivial
   | bin b l r => trivial
 
-theorem hasTy_liftOk (env : Env) (M : Mesh) (n : List Nat) (e : Expr) (t : Ty) (h : HasTy env M e t) :
-    LiftOk n e := by
+theorem hasTy_liftOk (env : Env) (M : Mesh) (e : Expr) (t : Ty) (h : HasTy env M e t) :
+    LiftOk M.n e := by
   induction h with
   | leaf k f hk => trivial
   | un u e t _ ih => exact ih
@@ -204,9 +204,9 @@ theorem hasTy_liftOk (env : Env) (M : Mesh) (n : List Nat) (e : Expr) (t : Ty) (
   | crossFR l a k np t m _ _ _ _ ih => exact ⟨ih, trivial, by intro hc; rcases hc with hc | hc <;> cases hc⟩
   | crossRF a k r t m _ _ _ _ ih => exact ⟨trivial, ih, by intro hc; rcases hc with hc | hc <;> cases hc⟩
   | shlFF l r tl tr m hl hr _ ihl ihr =>
-    exact ⟨ihl, ihr, fun _ => ⟨hasTy_operandOk env M n l tl hl, hasTy_operandOk env M n r tr hr⟩⟩
+    exact ⟨ihl, ihr, fun _ => ⟨hasTy_operandOk env M M.n l tl hl, hasTy_operandOk env M M.n r tr hr⟩⟩
   | angleFF l r tl tr hl hr _ ihl ihr =>
-    exact ⟨ihl, ihr, fun _ => ⟨hasTy_operandOk env M n l tl hl, hasTy_operandOk env M n r tr hr⟩⟩
+    exact ⟨ihl, ihr, fun _ => ⟨hasTy_operandOk env M M.n l tl hl, hasTy_operandOk env M M.n r tr hr⟩⟩
   | ufuncFF b l r tl tr hb _ _ _ ihl ihr =>
     exact ⟨ihl, ihr, by intro hc; rcases hc with rfl | rfl <;> simp [isUArith] at hb⟩
   | ufuncFR b l od t hb _ _ _ ih =>
@@ -217,5 +217,26 @@ theorem hasTy_liftOk (env : Env) (M : Mesh) (n : List Nat) (e : Expr) (t : Ty) (
     · subst hb; rcases hc with hc | hc <;> cases hc
   | ufuncRF b od r t hb _ _ _ ih =>
     exact ⟨trivial, ih, by intro hc; rcases hc with rfl | rfl <;> simp [isUArith] at hb⟩
+  | powFF l r tl tr d _ _ _ _ ihl ihr => exact ⟨ihl, ihr, by intro hc; rcases hc with hc | hc <;> cases hc⟩
+  | powRF od r t _ _ _ _ _ ih => exact ⟨trivial, ih, by intro hc; rcases hc with hc | hc <;> cases hc⟩
+  | upowFF l r tl tr _ _ _ _ ihl ihr => exact ⟨ihl, ihr, by intro hc; rcases hc with hc | hc <;> cases hc⟩
+  | upowRF od r t _ _ _ _ ih => exact ⟨trivial, ih, by intro hc; rcases hc with hc | hc <;> cases hc⟩
+  | ufuncSF b l r tl tr hb _ _ _ _ _ _ ihl ihr =>
+    exact ⟨ihl, ihr, by intro hc; rcases hc with rfl | rfl <;> simp [isUfuncBin] at hb⟩
+  | shlFR l od t hl hfit ih =>
+    refine ⟨ih, trivial, fun _ => ⟨hasTy_operandOk env M M.n l t hl, ?_⟩⟩
+    cases od with
+    | num z k np => trivial
+    | arr a k np => obtain ⟨m, _, _, hne⟩ := hfit; exact hne
+  | shlRF od r t hr hfit _ ih =>
+    refine ⟨trivial, ih, fun _ => ⟨?_, hasTy_operandOk env M M.n r t hr⟩⟩
+    cases od with
+    | num z k np => trivial
+    | arr a k np => obtain ⟨m, _, _, hne⟩ := hfit; exact hne
+  | angleFR l od t hl hfit ih =>
+    refine ⟨ih, trivial, fun _ => ⟨hasTy_operandOk env M M.n l t hl, ?_⟩⟩
+    cases od with
+    | num z k np => trivial
+    | arr a k np => exact hfit.2
 
 end DFV.C03
